@@ -12,6 +12,7 @@ import (
 // not take part in the join.
 
 type lockWalker struct {
+	shared   map[string]bool // lock expression -> last acquisition was RLock (shared mode)
 	info     *types.Info
 	sections int
 	// onAccess is called for every selector that resolves to a struct field, with the lockset at that point.
@@ -169,6 +170,10 @@ func (w *lockWalker) stmt(s ast.Stmt, held map[string]int) (map[string]int, bool
 				case "Lock", "RLock":
 					w.sections++
 					held[recv] = w.sections
+					if w.shared == nil {
+						w.shared = map[string]bool{}
+					}
+					w.shared[recv] = m == "RLock"
 				case "Unlock", "RUnlock":
 					delete(held, recv)
 				}
